@@ -183,9 +183,27 @@ class HyGen:
             deco = "(defn [(fn [f] f)]"
         return "%s %s [%s] %s)" % (deco, name, " ".join(params), " ".join(forms)), name
 
+    def nonlocal_comprehension(self, vis, enclosing):
+        """a comprehension lowered to a generator function (a :do clause) whose body declares several names
+        of the enclosing functions nonlocal and assigns a fresh name that leaks: compile_comprehension then
+        emits `if False: nonlocal <scope.nonlocal_vars>; (fresh,) = None` -- one more place where an
+        unordered collection of names could reach the AST"""
+        r = self.rng
+        pool = sorted(enclosing["fn"])
+        it = r.choice([n for n in NAMES if n not in pool] or NAMES)
+        decl = r.sample(pool, min(len(pool), r.randint(2, 6)))
+        fresh = ["fresh-%s" % w for w in r.sample(["one", "two", "three", "four"], r.randint(1, 3))]
+        kind = r.choice(["lfor", "sfor", "gfor", "lfor"])
+        upd = " ".join("(setv %s %s)" % (n, it) for n in decl[: r.randint(1, len(decl))])
+        leak = " ".join("(setv %s %s)" % (f, it) for f in fresh)
+        return "(setv %s (%s %s (range 2) :do (nonlocal %s) (do %s %s %s)))" % (
+            r.choice(NAMES), kind, it, " ".join(decl), upd, leak, it)
+
     def stmt(self, vis, depth, enclosing):
         r = self.rng
         c = r.random()
+        if enclosing is not None and len(enclosing["fn"]) >= 2 and r.random() < 0.12:
+            return self.nonlocal_comprehension(vis, enclosing)
         if depth > 2:
             c = c * 0.3
         if c < 0.18:
